@@ -11,10 +11,10 @@ package messages
 //@ interface Builder assumed
 //@   method BeginStringTag() (res string):
 //@     pure
-//@     ensures res == tagBS(self)
+//@     ensures res == tagBS(self) && isdigits(res)
 //@   method BodyLengthTag() (res string):
 //@     pure
-//@     ensures res == tagBL(self)
+//@     ensures res == tagBL(self) && isdigits(res)
 //@   method CheckSumTag() (res string):
 //@     pure
-//@     ensures res == tagCS(self)
+//@     ensures res == tagCS(self) && isdigits(res)
